@@ -3,8 +3,11 @@
 package mc
 
 import (
+	"encoding/json"
 	"fmt"
 	"os"
+	"sort"
+	"strings"
 	"time"
 
 	abci "github.com/cometbft/cometbft/abci/types"
@@ -46,32 +49,146 @@ func (w *World) ExportImport() (n *World, err error) {
 	return n, nil
 }
 
+// ---------------------------------------------------------------------------------------------
+// Genesis round trip (an extension of the state-invariant properties): a chain started from the
+// EXPORTED genesis of a reachable state is a chain like any other — the invariant must hold at its
+// first block boundary and keep holding. For every root of the property and every single op of its
+// alphabet: state := root + op; export; start a fresh application from the export; the drift vector
+// of the state oracle must be the same on both sides; then two more blocks (empty, a day later) on
+// the new chain, judged by the state and transition oracles like any block.
+
+var genesisRTProps = map[string]bool{"C01": true, "C02": true, "C06": true, "C08": true, "C09": true, "C11": true, "C12": true, "C13": true, "C15": true}
+
+var genesisRTFollow = []string{"empty", "gap_1d"}
+
+type grtUnit struct {
+	Prop string `json:"prop"`
+	Root string `json:"root"`
+	Op   string `json:"op"` // "" = the root itself
+}
+
+func (u grtUnit) trace() []string {
+	t := []string{}
+	if u.Op != "" {
+		t = append(t, u.Op)
+	}
+	t = append(t, ExportImportOp)
+	return append(t, genesisRTFollow...)
+}
+
+func grtUnits(prop, tier string) []interface{} {
+	cfg := WConfig(prop, tier)
+	var us []interface{}
+	seen := map[string]bool{}
+	for _, ph := range cfg.Phases {
+		if ph.First != nil || strings.HasPrefix(ph.Name, "union-") || strings.HasPrefix(ph.Name, "denom-sweep") {
+			continue // product-shaped phases (configuration / denom sweeps) stay with the W run
+		}
+		for _, r := range ph.Roots {
+			if tier != "thorough" && r != "R1" && r != "R3" && r != ph.Roots[len(ph.Roots)-1] {
+				continue // quick: R1, R3 (lazily accrued debts) and the phase's most specific root
+			}
+			for _, o := range append([]string{""}, ph.Ops...) {
+				k := r + "|" + o
+				if !seen[k] {
+					seen[k] = true
+					us = append(us, grtUnit{Prop: prop, Root: r, Op: o})
+				}
+			}
+		}
+	}
+	if !seen["R3|"] {
+		us = append(us, grtUnit{Prop: prop, Root: "R3", Op: ""}, grtUnit{Prop: prop, Root: "R3", Op: "gap_1d"})
+	}
+	return us
+}
+
+func grtWorker(prop string) func(tier string) KUnitFunc {
+	return func(tier string) KUnitFunc {
+		cfg := WConfig(prop, tier)
+		return func(raw json.RawMessage, deadline time.Time) *KStats {
+			var u grtUnit
+			if err := json.Unmarshal(raw, &u); err != nil {
+				return &KStats{HarnessErr: err.Error()}
+			}
+			st := &KStats{Clauses: map[string]int64{}}
+			if time.Now().After(deadline) {
+				st.Incomplete = true
+				return st
+			}
+			judgeFrom := 0
+			if u.Op != "" {
+				judgeFrom = 1
+			}
+			tr := u.trace()
+			fs, err := replayLinearFrom(cfg, u.Root, tr, judgeFrom)
+			if err != nil {
+				return &KStats{HarnessErr: fmt.Sprintf("genesis round trip %s%v: %v", u.Root, tr, err)}
+			}
+			st.Evaluations = int64(len(tr))
+			st.Sequences = 1
+			st.States = []string{u.Root + "|" + u.Op}
+			st.Clauses["genesis_round_trips"]++
+			seen := map[string]bool{}
+			for _, f := range fs {
+				if f.Clause == "genesis_export_import_failed" {
+					// not a statement about the invariant: counted, reported in the evidence
+					st.Clauses["state_not_importable"]++
+					if len(st.Samples) < 1 {
+						st.Samples = append(st.Samples, map[string]interface{}{"not_importable": u.Root + "[" + u.Op + "]", "error": f.Detail})
+					}
+					continue
+				}
+				if f.Culprit == "root" || seen[f.Sig()] {
+					continue
+				}
+				seen[f.Sig()] = true
+				st.Findings = append(st.Findings, KFinding{Finding: f, Input: append([]string{u.Root}, tr...), Len: len(tr)})
+			}
+			return st
+		}
+	}
+}
+
+func init() {
+	for p := range genesisRTProps {
+		KWorkers["GRT:"+p] = grtWorker(p)
+	}
+}
+
+// genesisRTAll runs the part for prop and returns its findings as W-style violations (root + linear trace).
+func genesisRTAll(prop, tier string, budget time.Duration) (sum *KSummary, vios []foundViolation) {
+	units := grtUnits(prop, tier)
+	sum = RunSharded("GRT:"+prop, tier, units, budget)
+	best := map[string]foundViolation{}
+	for _, f := range sum.Findings {
+		in, _ := toStrings(f.Input)
+		if len(in) == 0 {
+			continue
+		}
+		v := foundViolation{Finding: f.Finding, Root: in[0], Trace: in[1:]}
+		if old, ok := best[f.Sig()]; !ok || len(v.Trace) < len(old.Trace) {
+			best[f.Sig()] = v
+		}
+	}
+	keys := []string{}
+	for k := range best {
+		keys = append(keys, k)
+	}
+	sort.Strings(keys)
+	for _, k := range keys {
+		vios = append(vios, best[k])
+	}
+	return
+}
+
 // RunGenesisRT is a development probe: root + ops, then export/import, then every state oracle of prop on both worlds.
 func RunGenesisRT(prop, root string, ops []string) int {
 	cfg := WConfig(prop, "quick")
-	lib := NewOpLib()
-	w := NewWorld(cfg.Fixture)
-	defer w.Close()
-	BuildRoot(w, root, lib)
-	for _, o := range ops {
-		br := w.ExecOp(lib.Get(o))
-		fmt.Println("op", o, br.OK(), br.Err)
-	}
-	n, err := w.ExportImport()
-	if n != nil {
-		defer n.Close()
-	}
-	if err != nil {
-		fmt.Println("EXPORT/IMPORT FAILED:", err)
-		return 1
-	}
-	for _, o := range cfg.Oracles {
-		if o.State == nil {
-			continue
-		}
-		a, b := o.State(w), o.State(n)
-		fmt.Println("oracle", o.Name, "before:", fmt.Sprint(a))
-		fmt.Println("oracle", o.Name, "after: ", fmt.Sprint(b))
+	fs, err := replayLinearFrom(cfg, root, append(append(append([]string{}, ops...), ExportImportOp), genesisRTFollow...), len(ops))
+	fmt.Println("err:", err)
+	for _, f := range fs {
+		fmt.Printf("FINDING %s culprit=%s %s: %s\n", f.Clause, f.Culprit, f.Disc, f.Detail)
 	}
 	return 0
 }
